@@ -36,6 +36,8 @@ import (
 	"fmt"
 	"io"
 	"os"
+	"runtime"
+	"runtime/debug"
 	"sort"
 	"strings"
 	"sync"
@@ -145,6 +147,17 @@ func runCase(t *rapid.T, rec *ev.Recorder) {
 	fail := func(f string, a ...any) {
 		t.Fatalf("C14 violation: %s\nmode=%s write-cache=%v\nhistory:\n  %s", fmt.Sprintf(f, a...), target, withWC, strings.Join(hist, "\n  "))
 	}
+
+	// a runtime panic inside the shard is reported with its stack (rapid's own
+	// panics pass through untouched)
+	defer func() {
+		if p := recover(); p != nil {
+			if re, ok := p.(runtime.Error); ok {
+				fail("panic: %v\n%s", re, debug.Stack())
+			}
+			panic(p)
+		}
+	}()
 
 	dir, err := os.MkdirTemp("", "c14")
 	if err != nil {
